@@ -427,6 +427,131 @@ Qed.
 Lemma T_frame_decodeFrame_eq f : Translated.frame_decodeFrame (sc_of f) = fr_of (Wire.decode_frame f).
 Proof. reflexivity. Qed.
 
+(** *** fourth round: unmarshalBinary / marshalBinary and the error-frame accessors.
+    The translated codecs are functions into [option] ([None] = the explicit bounds check
+    [_ = b[15]] panics), exactly as the hand models [unmarshal16] / [marshal16].
+    Preconditions = the Go types: the elements of a []byte are bytes, [frame.data] is a [8]byte. *)
+From CanVerif Require Socketcan.WireSpec Socketcan.WireProofs.
+
+Definition ef_of (e : Wire.errframe) : Translated.ErrorFrame :=
+  {| Translated.ErrorFrame_ErrorClass := Wire.eclass e; Translated.ErrorFrame_LostArbitrationBit := Wire.elostarb e;
+     Translated.ErrorFrame_ControllerError := Wire.ectrl e; Translated.ErrorFrame_ProtocolError := Wire.eprot e;
+     Translated.ErrorFrame_ProtocolViolationErrorLocation := Wire.eprotloc e;
+     Translated.ErrorFrame_TransceiverError := Wire.etrx e;
+     Translated.ErrorFrame_ControllerSpecificInformation := Wire.ecsi e |}.
+
+(** type ranges of socketcan.frame *)
+Definition wf_sc (f : Wire.scframe) : Prop :=
+  in_u 32 (Wire.idflags f) /\ in_u 8 (Wire.dlc f) /\ length (Wire.scdata f) = 8%nat /\ Wire.bytes (Wire.scdata f).
+
+Lemma len16_cases (b : list Z) :
+  (Z.of_nat (length b) <? 16) = false ->
+  exists b0 b1 b2 b3 b4 b5 b6 b7 b8 b9 b10 b11 b12 b13 b14 b15 tl,
+    b = b0 :: b1 :: b2 :: b3 :: b4 :: b5 :: b6 :: b7 :: b8 :: b9 :: b10 :: b11 :: b12 :: b13 :: b14 :: b15 :: tl.
+Proof.
+  intros H. apply Z.ltb_ge in H.
+  do 16 (destruct b as [| ? b]; [cbn [length] in H; lia |]).
+  repeat eexists.
+Qed.
+
+Lemma len8_cases (d : list Z) : length d = 8%nat ->
+  exists d0 d1 d2 d3 d4 d5 d6 d7, d = [d0; d1; d2; d3; d4; d5; d6; d7].
+Proof.
+  intros H. do 8 (destruct d as [| ? d]; [discriminate |]). destruct d; [| discriminate]. repeat eexists.
+Qed.
+
+Lemma bytes_len_le15 (b : go_bytes) : (bytes_len b <=? 15) = (Z.of_nat (length b) <? Wire.lengthOfFrame).
+Proof.
+  unfold bytes_len, Wire.lengthOfFrame.
+  destruct (Z.leb_spec (Z.of_nat (length b)) 15), (Z.ltb_spec (Z.of_nat (length b)) 16); auto; lia.
+Qed.
+
+(** unmarshalBinary overwrites every field of the receiver, whatever it held before ([f0]) *)
+Lemma T_frame_unmarshalBinary_eq f0 b :
+  length (Translated.frame_data f0) = 8%nat -> Wire.bytes b ->
+  Translated.frame_unmarshalBinary f0 b = option_map sc_of (Wire.unmarshal16 b).
+Proof.
+  intros Hd Hb. unfold Translated.frame_unmarshalBinary, Wire.unmarshal16.
+  rewrite bytes_len_le15.
+  destruct (Z.of_nat (length b) <? Wire.lengthOfFrame) eqn:E; [reflexivity |].
+  rewrite (WireProofs.get_u32_word b Hb).
+  destruct (len16_cases b E) as (b0 & b1 & b2 & b3 & b4 & b5 & b6 & b7 & b8 & b9 & b10 & b11 & b12 & b13 & b14 & b15 & tl & ->).
+  destruct f0 as [w0 l0 d0]. cbn [Translated.frame_data] in Hd.
+  destruct (len8_cases d0 Hd) as (? & ? & ? & ? & ? & ? & ? & ? & ->).
+  reflexivity.
+Qed.
+
+(** marshalBinary returns the final contents of the slice it writes through *)
+Lemma T_frame_marshalBinary_eq f b :
+  length (Wire.scdata f) = 8%nat ->
+  Translated.frame_marshalBinary (sc_of f) b = Wire.marshal16 b f.
+Proof.
+  intros Hd. unfold Translated.frame_marshalBinary, Wire.marshal16.
+  rewrite bytes_len_le15.
+  destruct (Z.of_nat (length b) <? Wire.lengthOfFrame) eqn:E; [reflexivity |].
+  destruct (len16_cases b E) as (b0 & b1 & b2 & b3 & b4 & b5 & b6 & b7 & b8 & b9 & b10 & b11 & b12 & b13 & b14 & b15 & tl & ->).
+  destruct f as [w l d]. cbn [Wire.scdata] in Hd.
+  destruct (len8_cases d Hd) as (? & ? & ? & ? & ? & ? & ? & ? & ->).
+  cbn [sc_of Wire.idflags Wire.dlc Wire.scdata Translated.frame_idAndFlags Translated.frame_dataLengthCode Translated.frame_data].
+  rewrite bytes_set_len, binary_le_PutUint32_len.
+  unfold binary_le_PutUint32, le_bytes4, Wire.put_u32. rewrite !le_byte_mod by lia.
+  change (8 * 0) with 0. change (8 * 1) with 8. change (8 * 2) with 16. change (8 * 3) with 24. rewrite Z.shiftr_0_r.
+  unfold bytes_copy_at, bytes_splice, bytes_set, bytes_slice, bytes_len, Wire.lengthOfPadding, Wire.indexOfPadding.
+  rewrite Nat2Z.id.
+  change (Z.to_nat 0) with 0%nat. change (Z.to_nat 4) with 4%nat. change (Z.to_nat 8) with 8%nat.
+  cbn [length Nat.sub firstn skipn list_splice list_set app].
+  rewrite firstn_nil, list_splice_nil. reflexivity.
+Qed.
+
+Lemma T_frame_errorClass_eq f : in_u 32 (Wire.idflags f) ->
+  Translated.frame_errorClass (sc_of f) = Wire.eclass (Wire.decode_error_frame f).
+Proof.
+  intros H. unfold Translated.frame_errorClass. cbn [sc_of Translated.frame_idAndFlags].
+  rewrite wrap_u_small; [reflexivity |]. apply go_andnot_range_u; [lia | exact H | apply in_u_lit; reflexivity].
+Qed.
+
+Lemma bytes_nth_in_u8 d i : Wire.bytes d -> in_u 8 (nth i d 0).
+Proof.
+  intros H. revert i. induction H as [| h t Hh Ht IH]; intros [| i]; cbn [nth]; auto;
+    try (unfold in_u; change (2 ^ 8) with 256; unfold Wire.is_byte in *; lia).
+Qed.
+
+Lemma T_frame_lostArbitrationBit_eq f :
+  Translated.frame_lostArbitrationBit (sc_of f) = Wire.elostarb (Wire.decode_error_frame f).
+Proof. reflexivity. Qed.
+
+Lemma T_frame_controllerError_eq f : Wire.bytes (Wire.scdata f) ->
+  Translated.frame_controllerError (sc_of f) = Wire.ectrl (Wire.decode_error_frame f).
+Proof. intros H. unfold Translated.frame_controllerError. rewrite wrap_u_small; [reflexivity | apply bytes_nth_in_u8, H]. Qed.
+
+Lemma T_frame_protocolError_eq f : Wire.bytes (Wire.scdata f) ->
+  Translated.frame_protocolError (sc_of f) = Wire.eprot (Wire.decode_error_frame f).
+Proof. intros H. unfold Translated.frame_protocolError. rewrite wrap_u_small; [reflexivity | apply bytes_nth_in_u8, H]. Qed.
+
+Lemma T_frame_protocolErrorLocation_eq f : Wire.bytes (Wire.scdata f) ->
+  Translated.frame_protocolErrorLocation (sc_of f) = Wire.eprotloc (Wire.decode_error_frame f).
+Proof. intros H. unfold Translated.frame_protocolErrorLocation. rewrite wrap_u_small; [reflexivity | apply bytes_nth_in_u8, H]. Qed.
+
+Lemma T_frame_transceiverError_eq f : Wire.bytes (Wire.scdata f) ->
+  Translated.frame_transceiverError (sc_of f) = Wire.etrx (Wire.decode_error_frame f).
+Proof. intros H. unfold Translated.frame_transceiverError. rewrite wrap_u_small; [reflexivity | apply bytes_nth_in_u8, H]. Qed.
+
+Lemma T_frame_controllerSpecificInformation_eq f : length (Wire.scdata f) = 8%nat ->
+  Translated.frame_controllerSpecificInformation (sc_of f) = Wire.ecsi (Wire.decode_error_frame f).
+Proof.
+  intros Hd. destruct f as [w l d]. cbn [Wire.scdata] in Hd.
+  destruct (len8_cases d Hd) as (? & ? & ? & ? & ? & ? & ? & ? & ->). reflexivity.
+Qed.
+
+Lemma T_frame_decodeErrorFrame_eq f : wf_sc f ->
+  Translated.frame_decodeErrorFrame (sc_of f) = ef_of (Wire.decode_error_frame f).
+Proof.
+  intros (Hw & _ & Hl & Hb). unfold Translated.frame_decodeErrorFrame, ef_of.
+  rewrite T_frame_errorClass_eq, T_frame_lostArbitrationBit_eq, T_frame_controllerError_eq, T_frame_protocolError_eq,
+    T_frame_protocolErrorLocation_eq, T_frame_transceiverError_eq, T_frame_controllerSpecificInformation_eq by assumption.
+  reflexivity.
+Qed.
+
 (* @group physical requires can descriptor *)
 (** ** pkg/descriptor/signal.go, floating-point part  (models: Descriptor/Physical.v; semantics of
        the float operators: Translate/GoSemFloat.v).  The T_ lemmas of this group depend on the
